@@ -422,8 +422,8 @@ def run(ctx, rep):
             got, fired, err = run_helper(fa, table, ["FOO", A1], fail=True)
             if err or got != want:
                 bad_fail.append("%s: %s" % (what, err or "table %s" % got))
-    except AnalysisError as ex:
-        bad_state.append("cannot evaluate: %s" % ex)
+    except AnalysisError:
+        raise
     rep.ob("R18.5", "_add_service: records (name, address) with the current time and leaves the rest of the table alone", not bad_state,
            "%d table states evaluated" % len(add_rows) if not bad_state else "; ".join(bad_state)[:400], fa.loc, kind="table")
     rep.ob("R18.5", "_add_service: on_service_added fires only when the (name, address) pair was not present", not bad_note,
@@ -448,8 +448,8 @@ def run(ctx, rep):
             got, fired, err = run_helper(fr_, table, ["FOO", A1], fail=True)
             if err or got != want:
                 bad_fail.append("%s: %s" % (what, err or "table %s" % got))
-    except AnalysisError as ex:
-        bad_state.append("cannot evaluate: %s" % ex)
+    except AnalysisError:
+        raise
     rep.ob("R18.5", "_remove_service: removes exactly that server; a name with no servers left is removed from the table",
            not bad_state, "%d table states evaluated" % len(rem_rows) if not bad_state else "; ".join(bad_state)[:400], fr_.loc,
            kind="table")
@@ -553,10 +553,7 @@ def run(ctx, rep):
     n_ops = 0
     for title, ops in sorted(histories.items()):
         n_ops += len(ops)
-        try:
-            bad = run_history(ops)
-        except AnalysisError as ex:
-            bad = "cannot evaluate: %s" % ex
+        bad = run_history(ops)      # an AnalysisError (construct the interpreter does not model) ends the run with exit 2
         rep.ob("R18.6", "registry commands, history '%s'" % title, bad is None,
                "%d commands agree with the reference model (answers, table contents, notifications)" % len(ops) if bad is None else bad,
                fq.loc, kind="table")
